@@ -233,15 +233,33 @@ def h_variants(E, shape):
     P = boot.mod("params")
     ctx = setup(E, shape)
     systems = []
+    tau = None
+    if shape.get("tau"):
+        # caller-chosen active set: the projection point is taken with parameter tau instead of dt
+        tau = E.real("tau", lo=0, lo_strict=True)
+        spec, n = ctx["spec"], ctx["n"]
+        Rh = defs.ref_point(spec, ctx["xh"], ctx["yh"], ctx["rho"])
+        p = [ctx["xh"][j] - tau * Rh["dLx"][j] for j in range(n)]  # x == x_hat at the first step
+
+
+        def wanted(s):  # s = lambda for the formulations working on the lambda-scaled residual
+            lo = [s * l if l != -INF else -INF for l in spec["xl"]]
+            hi = [s * u if u != INF else INF for u in spec["xu"]]
+            return [lor(s * p[j] < lo[j] - 1e-8, s * p[j] > hi[j] + 1e-8) for j in range(n)]
+
     for nt in ("Simplified", "Full", "ActiveSet"):
         ctx["params"].newton_type = P.NewtonType[nt]
         ctx["rec"].made.clear()
         ctx["rec"].solves.clear()
-        method = N.newton_method(ctx["user"], ctx["params"], ctx["orig"], ctx["dt"], ctx["rho"])
+        method = N.newton_method(ctx["user"], ctx["params"], ctx["orig"], ctx["dt"], ctx["rho"], tau)
         step = method.step(ctx["orig"])
         E.prove(len(ctx["rec"].solves) == 1, "C14.one_factorisation_one_solve")
         M, r, trans, s = ctx["rec"].solves[0]
-        systems.append((M, r, [bool(v) for v in items(step.active_set)]))
+        act = [bool(v) for v in items(step.active_set)]
+        if tau is not None:
+            want = wanted(ctx["lam"] if type(method.func).__name__ == "ScaledImplicitFunc" else 1.0)
+            E.prove(land(*[iff(a, w) for a, w in zip(act, want)]), "C14.requested_active_set_is_used")
+        systems.append((M, r, act))
     M0, r0, a0 = systems[0]
     for (M, r, a) in systems[1:]:
         ok = a == a0 and len(M) == len(M0)
